@@ -4,7 +4,7 @@
    for every expression tree of any size.  Declarations and statements are decided by the round-trip search. *)
 From Coq Require Import List NArith Bool Arith.
 From Verif Require Import Base.Res Gen.GenTokens Model.Lexer Model.ExprParser Proofs.ExprParserProofs Proofs.ExprInstance.
-From Verif Require Model.StParser Model.StInstance Model.StRender Proofs.StExprProofs Proofs.StStmtProofs Proofs.StInstanceProofs Proofs.StRenderProofs Model.DeclParser Proofs.DeclProofs Proofs.DeclRenderProofs Proofs.LibProofs Model.LibRender Proofs.LibRenderProofs.
+From Verif Require Model.StParser Model.StInstance Model.StRender Proofs.StExprProofs Proofs.StStmtProofs Proofs.StInstanceProofs Proofs.StRenderProofs Model.DeclParser Proofs.DeclProofs Proofs.DeclRenderProofs Proofs.LibProofs Model.LibRender Proofs.LibRenderProofs Proofs.LexSpell Proofs.TextRoundTrip.
 Import ListNotations.
 Close Scope N_scope.
 Open Scope nat_scope.
@@ -113,3 +113,36 @@ Theorem C10_negative_bound_refuted :
   LibRender.render_lib2 LibRenderProofs.neg_bound_witness = LibRenderProofs.real_neg_bound_render /\
   StInstance.parse_lib2_tokens LibRenderProofs.real_neg_bound_render = StInstance.O4Rejected.
 Proof. exact (conj LibRenderProofs.neg_bound_is_what_the_model_writes LibRenderProofs.render_negative_bound_refuted). Qed.
+
+(* ---- at the level of texts: lexer model, parser model and renderer model composed (Proofs/LexSpell.v, TextRoundTrip.v) ---- *)
+(* the text of a token list that passes the decidable check [sep_ok] -- what follows each token cannot extend it -- is read
+   back by the lexer model as these tokens: their kinds and texts, in order, and nothing is rejected *)
+Theorem C10_spelled_tokens_are_read_back : forall toks, LexSpell.sep_ok toks = true ->
+  map LexSpell.item_view (Lexer.lex_items (LexSpell.spell_all toks)) = map (fun t => Some (LexSpell.view t)) toks.
+Proof. exact LexSpell.spelled_tokens_are_read_back. Qed.
+
+(* one token: a word followed by something that is no identifier character is the keyword some pattern of its length spells
+   (without regard to letter case), an identifier otherwise *)
+Theorem C10_word_is_read_back : forall w rest, LexSpell.wordy w = true -> LexSpell.next_not_ident rest ->
+  Lexer.lex_one (w ++ rest) = Some (List.length w, match LexSpell.kw_kind w with Some k => k | None => KIdentifier end).
+Proof. exact LexSpell.lex_word. Qed.
+
+(* the TEXT the renderer model writes for a function block is read as the tokens it was written from (with the ';' the
+   tokenizer adds after END_IF), given the decidable check [text_ok] of that rendering *)
+Theorem C10_text_is_read_as_rendered : forall name l, TextRoundTrip.text_ok (StRenderProofs.render_fb name l) = true ->
+  StInstance.parse_fb_text (TextRoundTrip.render_text name l)
+  = StInstance.parse_fb_tokens (Lexer.insert_terminators (StRenderProofs.render_fb name l)).
+Proof. exact TextRoundTrip.text_is_read_as_rendered. Qed.
+
+(* ... hence parsing the text gives back the statements, where the tokenizer adds nothing (no END_IF; with END_IF the added
+   ';' are empty statements: evaluated on every generated rendering and in the example below, not proved) *)
+Theorem C10_text_round_trip : forall name l, l <> [] -> Forall StRenderProofs.rstmt l ->
+  TextRoundTrip.text_ok (StRenderProofs.render_fb name l) = true ->
+  forallb (fun t => negb (Lexer.kind_eqb (t_kind t) KEndIf)) (StRenderProofs.render_fb name l) = true ->
+  StInstance.parse_fb_text (TextRoundTrip.render_text name l) = StInstance.OParsed l.
+Proof. exact TextRoundTrip.text_round_trip. Qed.
+
+Example C10_text_round_trip_example :
+  TextRoundTrip.text_ok (StRenderProofs.render_fb [102%N; 98%N] StRenderProofs.ex_stmts) = true /\
+  StInstance.parse_fb_text (TextRoundTrip.render_text [102%N; 98%N] StRenderProofs.ex_stmts) = StInstance.OParsed StRenderProofs.ex_stmts.
+Proof. exact TextRoundTrip.text_round_trip_example. Qed.
